@@ -74,7 +74,21 @@ fn gen_batch(max: usize, next_seq: &mut u32, mentioned: &BTreeSet<u32>) -> (Vec<
   }
   .min(max)
   .max(1);
-  match ctx::choose(5) {
+  match ctx::choose(6) {
+    5 => {
+      // ascending with duplicates and gaps (e.g. [5,5,7]): looks like a consecutive block by first/last/len
+      let mut v: Vec<u32> = Vec::new();
+      let mut cur = if mentioned.is_empty() || ctx::choose(2) == 0 {
+        ctx::choose(200) as u32
+      } else {
+        *mentioned.iter().next().unwrap()
+      };
+      for _ in 0..size.min(12) {
+        v.push(cur);
+        cur = cur.saturating_add([0u32, 0, 1, 2, 2][ctx::choose(5)]);
+      }
+      (v, "sorted-with-duplicates-and-gaps")
+    }
     0 => {
       // sequential allocation, as issuers do
       let v: Vec<u32> = (0..size as u32).map(|i| *next_seq + i).collect();
